@@ -418,6 +418,8 @@ def r17_10(ctx):
 
 
 def run(ctx):
+    ctx.rule("R17.16", "the layout of the tags the XML serializer writes: '<' name, namespace declarations ' xmlns[:prefix]=\"uri\"', attributes ' name=\"value\"', '>'; '</' name '>'; a qualified name is [prefix ':'] local")
+    ctx.guard("R17.16", "tag-layout", lambda: r17_16(ctx))
     ctx.rule("R17.15", "= R16.10: which attributes are namespace declarations is decided on prefix and local name alone, identically (complementarily) in the declaring and the binding pass - a declaration the tree builder rejects must not survive as an attribute, which the serializer would write out and the re-parse reject again")
     from . import nsdecl as _nsd
     ctx.guard("R17.15", "declaration-predicates", lambda: _nsd.declaration_predicates(ctx, "R17.15"))
@@ -455,3 +457,51 @@ def run(ctx):
     # the serializer keeps its prefix scopes in the tree builder's NamespaceMap type
     ctx.guard("R17.5", "nf-namespace-map", lambda: nf_common.nf_rule(ctx, "R17.5", "xml_tree_builder", only=("NamespaceMap",), floor=4))
     ctx.guard("R17.5", "nf-rcdom", lambda: nf_common.nf_rule(ctx, "R17.5", "rcdom", only=("[Serialize]",)))
+
+
+def r17_16(ctx):
+    """the layout of the tags the XML serializer writes, as the sequence of its writes on the complete (error-free) paths:
+    start tag  '<' qualified-name  { ' xmlns' [':' prefix] '="' escaped-uri '"' }  { ' ' qualified-name '="' escaped-value '"' }  '>'
+    end tag    '</' qualified-name '>'          qualified name   [prefix ':'] local"""
+    def seq(pc):
+        return [x for x in nfq.texts(pc) if re.match(r"(self\.writer|p1)\.write_all\(|call write_to_buf_escaped\(|call write_qual_name\(|self\.qual_name\(|loop-begin|loop-end", x)]
+
+    def complete(pcs, last):
+        out = [pc for pc in nfq.feasible(pcs) if str(pc["ret"]) in ("Ok(())", last)]
+        return sorted(out, key=lambda p: -len(p["actions"]))
+
+    W = lambda *b: "self.writer.write_all([%s])" % ", ".join(str(x) for x in b)
+    # start_elem: the longest complete path takes every optional part once
+    key, pcs = nfq.cells(ctx, "xml_serialize", "[Serializer]::start_elem")
+    cs = complete(pcs, "self.writer.write_all([62])")
+    if not cs:
+        raise AnchorMissing("xml start_elem: no complete path")
+    s = seq(cs[0])
+    # drop the first loop (registration of attribute prefixes: no writes)
+    txt = " ; ".join(s)
+    want = [W(60), "self.qual_name(p1)", "loop-begin", W(32, 120, 109, 108, 110, 115), W(58), "self.writer.write_all(item.0.0.as_bytes())", W(61, 34),
+            "call write_to_buf_escaped(self.writer,item.1.0,true)", W(34), "loop-end", "loop-begin", W(32), "call write_qual_name(self.writer,item.0)", W(61, 34),
+            "call write_to_buf_escaped(self.writer,item.1,true)", W(34), "loop-end", W(62)]
+    got = [x for x in s]
+    # align: keep only the items from the first '<' on
+    if W(60) in got:
+        got = got[got.index(W(60)):]
+    norm = [("loop-begin" if x.startswith("loop-begin") else "loop-end" if x.startswith("loop-end") else x) for x in got]
+    ok = norm == want
+    ctx.ob("R17.16", "start-tag-layout", ok, "'<' name {' xmlns' [':' prefix] '=\"' uri '\"'} {' ' name '=\"' value '\"'} '>'" if ok else
+           "the start tag is written as %s" % " ".join(x.replace("self.writer.write_all", "w").replace("call ", "") for x in norm)[:400], "xml5ever serialize start_elem")
+    key, pcs = nfq.cells(ctx, "xml_serialize", "[Serializer]::end_elem")
+    cs = complete(pcs, "self.writer.write_all([62])")
+    s = [x for x in (seq(cs[0]) if cs else [])]
+    ok = s == [W(60, 47), "call write_qual_name(self.writer,p1)", W(62)]
+    ctx.ob("R17.16", "end-tag-layout", ok, "'</' qualified name '>'" if ok else "the end tag is written as %s" % s, "xml5ever serialize end_elem")
+    key, pcs = nfq.cells(ctx, "xml_serialize", "write_qual_name")
+    full = [pc for pc in nfq.feasible(pcs) if str(pc["ret"]) == "Ok(())"]
+    bad = None
+    for pc in full:
+        pre = [v for k, v in pc["guards"].items() if k.startswith("p2.prefix matches Some(_)")]
+        s = [x for x in nfq.texts(pc) if x.startswith("p1.write_all(")]
+        want = (["p1.write_all(p2.prefix.0.as_bytes())", "p1.write_all([58])"] if pre and pre[0] else []) + ["p1.write_all(p2.local.as_bytes())"]
+        if s != want:
+            bad = "a %s name is written as %s" % ("prefixed" if pre and pre[0] else "plain", s)
+    ctx.ob("R17.16", "qualified-name-layout", bad is None and len(full) >= 2, bad or "[prefix ':'] local", "xml5ever serialize write_qual_name")
